@@ -1112,6 +1112,10 @@ func errMergeOf(b *ssa.BasicBlock) *errMerge {
 				if sc := x.Call.StaticCallee(); sc != nil && (sc.String() == "fmt.Errorf" || sc.String() == "errors.New") {
 					k = 1 - nilSucc
 				}
+			case *ssa.UnOp:
+				if IsSentinelErr(x) {
+					k = 1 - nilSucc
+				}
 			}
 			if k < 0 && i < len(b.Preds) && knownNonNilOn(b.Preds[i], ev) {
 				k = 1 - nilSucc
@@ -1576,4 +1580,24 @@ func pathNoLookup(v ssa.Value) string {
 		return ""
 	}
 	return Path(v)
+}
+
+
+// IsSentinelErr: v is the value of a package-level error variable named Err…/EOF (io.ErrShortWrite, a module's own
+// ErrNotFound): by convention such variables are initialised once to a non-nil error and never assigned nil.
+func IsSentinelErr(v ssa.Value) bool {
+	ld, ok := v.(*ssa.UnOp)
+	if !ok || ld.Op != token.MUL {
+		return false
+	}
+	g, ok := ld.X.(*ssa.Global)
+	if !ok {
+		return false
+	}
+	n := g.Name()
+	if !(strings.HasPrefix(n, "Err") || strings.HasPrefix(n, "err") || n == "EOF") {
+		return false
+	}
+	pt, ok := g.Type().Underlying().(*types.Pointer)
+	return ok && pt.Elem().String() == "error"
 }
